@@ -87,3 +87,20 @@ claim("C04",
            "observed. Trusted: Lean kernel + 3 standard axioms, the hand-written model (4k comparisons per quick run), harness, oracle.",
       technique="Lean 4 proof over executable model + differential correspondence with the Python implementation",
       design_ref="DESIGN.md §5 C04")
+
+claim("C05",
+      text="Proved for the Lean model of eds.from_mrs (_mrs_get_top, _mrs_args_to_basic_deps, _mrs_to_nodes, "
+           "find_predicate_modifiers, make_ids_unique, on the shared model of MRS/_uniquify_ids/scope.representatives/"
+           "_connected_components), for all MRSs with complete intrinsic variables and no ARG0 of sort '_'/'q': one node per "
+           "predication in order with its data (any configuration, incl. a user-supplied predicate-modifier function); every "
+           "edge ends at a node and is a BV edge quantifier→quantifiee, an edge justified by an argument (intrinsic variable, "
+           "label, or hcons-constrained hole), or, with predicate modifiers on, an ARG1 edge between two same-label predications "
+           "not connected in the graph without modifiers; a top, when present, is a node; EP ids and, with unique_ids=False, "
+           "node ids are pairwise distinct. Totality is false of the code as stated (F08: decide-checked counter-example, known finding).",
+      note="Not proved, checked by the direct oracle and the model/implementation comparison only: uniqueness of ids after "
+           "make_ids_unique (unique_ids=True), totality and absence of warnings on well-formed input, 'exactly one BV edge' "
+           "completeness, native/JSON/PENMAN round trip of the result. Assumed: input space = is_well_formed plus at most one "
+           "quantifier per variable; canonical variable numerals; default representative_priority; a user function is represented "
+           "by the mapping it returns; Python set order in make_ids_unique for shared ARG0s is outside the model ('unmodelled').",
+      technique="Lean 4 proof over executable model + differential correspondence with the Python implementation",
+      design_ref="DESIGN.md §5 C05")
